@@ -1,7 +1,71 @@
-"""C07 — end-to-end cascade check (see harness/pipecheck.py and DESIGN.md §6 C07)."""
-from .. import pipecheck
+"""C07 — hits above MSA + buffer never influence the result; those below are kept intact.
+
+Two ties (DESIGN.md 6 C07): (a) the end-to-end cascade check of harness/pipecheck.py (cropped frame and high-cloud flag
+against the model, spec predicates C07.*); (b) metamorphic runs of the real code: every hit above the limit moved to
+another height above the limit (everything must be identical, flag and messages included), and the hits above the limit
+replaced by what the crop makes of them (first / VV hits -> non-detections, higher types deleted: identical data, ids and
+tables; messages identical up to NCD <-> NSC, which legitimately follows the number of cropped hits).
+"""
+import hashlib
+import random
+import warnings
+from multiprocessing import Pool
+
+from .. import metamorph, pipecheck, scenes
 
 PROP = 'C07'
+
+
+def _variants(rows, lim, rng):
+    moved, replaced = [], []
+    for c, dt, h, t in rows:
+        if h == h and h > lim:
+            moved.append((c, dt, float(h + rng.choice([1.0, 250.0, 4000.0, 0.5])), t))
+            if t <= 1:
+                replaced.append((c, dt, float('nan'), 0))
+        else:
+            moved.append((c, dt, h, t)); replaced.append((c, dt, h, t))
+    return moved, replaced
+
+
+def _meta(args):
+    seed, k = args
+    rng = random.Random(f'{seed}:c07meta:{k}')
+    fam = rng.choice(['crop', 'crop', 'owned', 'split', 'synth', 'drift'])
+    rows, prms, _ = pipecheck.gen_scene(seed, 50000 + k, fam)
+    prms = dict(prms)
+    hs = sorted(h for _, _, h, _ in rows if h == h)
+    if prms.get('MSA') is None:
+        if not hs:
+            return None
+        prms['MSA'] = float(rng.choice([hs[len(hs) // 2], hs[-1] - 1, hs[0]]))
+        prms.setdefault('MSA_HIT_BUFFER', rng.choice([0, 100, 1500]))
+    lim = prms['MSA'] + prms.get('MSA_HIT_BUFFER', 1500)
+    if not any(h > lim for h in hs):
+        return None
+    moved, replaced = _variants(rows, lim, rng)
+    res = {'k': k, 'family': fam, 'findings': [], 'n_above': sum(1 for h in hs if h > lim),
+           'digest': hashlib.sha1(repr((rows, sorted(prms.items(), key=str))).encode()).hexdigest()[:16]}
+    with warnings.catch_warnings():
+        warnings.simplefilter('ignore')
+        base = metamorph.observe(scenes.run_scene(rows, prms))
+        a = metamorph.observe(scenes.run_scene(moved, prms))
+        b = metamorph.observe(scenes.run_scene(replaced, prms))
+    if 'exc' in base:
+        res['skip'] = base['exc']
+        return res
+    if a != base:
+        res['findings'].append(('C07.heights-above-the-limit-are-irrelevant',
+                                f"moving the {res['n_above']} hits above {lim} ft changes {[x for x in base if base.get(x) != a.get(x)] or list(a)}"))
+    nn = lambda m: ['N??' if x in ('NCD', 'NSC') else x for x in m]
+    diff = [x for x in ('data', 'sids', 'gids', 'lids', 'slices', 'groups', 'layers') if base.get(x) != b.get(x)]
+    if b.get('exc') == 'AmpycloudError at init':
+        # the replaced table is not itself an accepted input (e.g. a non-detection next to a remaining higher-type row)
+        res['replaced_not_accepted'] = True
+    elif 'exc' in b or diff or nn(base.get('msgs', [])) != nn(b.get('msgs', [])):
+        res['findings'].append(('C07.same-as-with-non-detections',
+                                f"replacing the hits above {lim} ft by what the crop makes of them changes {diff or b.get('exc') or 'msgs'}"))
+    return res
 
 
 def run(chk):
@@ -9,11 +73,31 @@ def run(chk):
     chk.rule = ('scenes from families synth / exact / degenerate / multi / chain (repeated merges, exact min-sep ties) / '
                 'split (mixture engaged, 2-3 modes, any row order, look-back) / crop (hits at and around MSA+buffer) / bundle '
                 '(time axis matters) / manyslices (>100 slices); the real cascade is run under recording and re-run by the '
-                'Lean model with the recorded third-party answers; non-trivial = some level reports something other than '
-                'NCD; distinct by scene digest')
+                'Lean model with the recorded third-party answers; plus metamorphic triples (scene, hits above the limit moved, '
+                'hits above the limit replaced by non-detections / deleted) on the real code; non-trivial = some level reports '
+                'something other than NCD; distinct by scene digest')
     pipecheck.run_pipeline(chk, PROP, n)
+    m = 160 if chk.tier == 'quick' else 2000
+    with Pool(16) as pool:
+        results = pool.map(_meta, [(chk.seed, k) for k in range(m)], chunksize=2)
+    for r in results:
+        if r is None:
+            chk.count('metamorphic_scene_without_hits_above_the_limit')
+            continue
+        if 'skip' in r:
+            chk.count('metamorphic_base_raised')
+            continue
+        chk.count('metamorphic_triples')
+        chk.case(('meta', r['digest']), nontrivial=True)
+        for clause, detail in r['findings']:
+            chk.spec_fail(clause, detail, {'gen': {'seed': chk.seed, 'k': r['k'], 'part': 'meta'}})
     return None
 
 
 def replay(chk, obj):
+    case = obj.get('case') or (obj.get('broken_correspondence') or [{}])[0].get('case')
+    if case and case.get('gen', {}).get('part') == 'meta':
+        r = _meta((case['gen']['seed'], case['gen']['k']))
+        print(r)
+        return 1 if (r and r.get('findings')) else 0
     return pipecheck.replay_scene(chk, obj, PROP)
